@@ -16,7 +16,7 @@ RULE = ("case 'sig' = (format out of dbc, dbf, sym, kcd, json, xls, arxml; for j
         "Motorola signals at any non-overlapping placement, standard and extended ids, simple multiplexing; one of its signals): the "
         "position number stored in the file (extracted by a mini-parser for dbc, dbf, sym, kcd, json), and start/width/byte order of "
         "the signal after reading the file back. case 'frame' = presence of the frame (identifier + format) after the round trip. "
-        "30 % of the extended frames are flagged J1939. Half of the matrices are built with the extended flag as the integer 1 (as the readers set it), signed signals name negative raw values in their value tables, identifier numbers occur in both formats, frames longer than 8 bytes in every format. 40 % of the matrices name one to three of their ECUs, 20 % one frame and 20 % one signal with a word that contains the text of a keyword, column heading, tag or attribute of one of the file formats (BRIDGE, VIDEO, Motor_ID, CycleCtrl, ValueSrv, BO_Gw, SG_1, Mux, Var, Type, Message, Producer, START_MSG ...); three matrices in ten have plain signals (factor 1, offset 0, no unit, mostly no value table, some shrunk to 1 bit flags, some with explicit limits 0..1 / 0..0) for which the writers omit optional elements; one matrix in four has names of 33..64 characters - longer than a DBC symbol, so that the DBC writer cuts them and restores them from attribute statements - for a third, two thirds or all of its signals and frames and some of its ECUs, in a third of these matrices the long signal names of a frame are equal in their first 32 characters (..._Bank1 / ..._Bank2); one matrix in twelve is written and read through a file path (dumpp/loadp, format taken from the extension) instead of a byte buffer. case 'bus' = a cluster of 1..3 buses for KCD/ARXML; in KCD the names of frames and signals are local to a bus in half of the clusters (the same names on every bus), and most clusters with several buses carry one or two routed frames: a frame of one bus (same identifier, format and name) also on another bus, as an equal copy, as the very same Frame object, or (KCD) with other signals and length. Non-trivial = distinct case with a Motorola signal or a signal wider than one bit.")
+        "30 % of the extended frames are flagged J1939. Half of the matrices are built with the extended flag as the integer 1 (as the readers set it), signed signals name negative raw values in their value tables, identifier numbers occur in both formats, frames longer than 8 bytes in every format. 40 % of the matrices name one to three of their ECUs, 20 % one frame and 20 % one signal with a word that contains the text of a keyword, column heading, tag or attribute of one of the file formats (BRIDGE, VIDEO, Motor_ID, CycleCtrl, ValueSrv, BO_Gw, SG_1, Mux, Var, Type, Message, Producer, START_MSG ...); three matrices in ten have plain signals (factor 1, offset 0, no unit, mostly no value table, some shrunk to 1 bit flags, some with explicit limits 0..1 / 0..0) for which the writers omit optional elements; one matrix in four has names of 33..64 characters - longer than a DBC symbol, so that the DBC writer cuts them and restores them from attribute statements - for a third, two thirds or all of its signals and frames and some of its ECUs, in a third of these matrices the long signal names of a frame are equal in their first 32 characters (..._Bank1 / ..._Bank2); one matrix in six has names that differ in capitalisation only (two signals of a frame, two frames, two ECUs); one matrix in six (not XLS) has a frame without any signal (one frame stripped, a further trigger frame, or no signals at all); half of the JSON matrices are written by the writer's default compact export (jsonExportAll off, with and without jsonNativeTypes) instead of the complete one; one matrix in twelve is written and read through a file path (dumpp/loadp, format taken from the extension) instead of a byte buffer. case 'bus' = a cluster of 1..3 buses for KCD/ARXML; in KCD the names of frames and signals are local to a bus in half of the clusters (the same names on every bus), and most clusters with several buses carry one or two routed frames: a frame of one bus (same identifier, format and name) also on another bus, as an equal copy, as the very same Frame object, or (KCD) with other signals and length. Non-trivial = distinct case with a Motorola signal or a signal wider than one bit.")
 PARTIAL = ["only the field kernels (position and identifier numbers) carry theorems; file assembly, XML plumbing and reference "
            "resolution are tied by this correspondence check only",
            "multi-bus files (KCD/ARXML, 2..3 buses) are compared per bus on the layout normal form (case 'bus')",
@@ -44,14 +44,23 @@ def gen(rng, tier, shard, nshards, rich=False):
         plain_signals(rng, desc, fmt)
         long_names(rng, desc, fmt)
         keyword_names(rng, desc, fmt, wn, rich)
+        jopt = None
+        if not rich:
+            # (layout stream only: the value stream C07 keeps its matrices and the complete JSON export)
+            case_twins(rng, desc, fmt)
+            empty_frames(rng, desc, fmt)
+            if fmt == "json" and rng.random() < 0.5:
+                # the JSON writer's own default is the compact export (name, identifier, format and the signals' layout, factor
+                # and offset only); `jsonNativeTypes` writes the numbers as JSON numbers.  The CANard export has no reader.
+                jopt = {"jsonExportAll": False, "jsonNativeTypes": rng.random() < 0.4}
         # the same round trip through a file path (dumpp / loadp pick the format by the extension) instead of a byte buffer
         via = "path" if rng.random() < 0.08 else "bytes"
         for f in desc["frames"]:
-            yield {"op": "frame", "c": {"fmt": fmt, "wn": wn, "rn": rn, "m": desc, "fid": f["id"], "ext": f["ext"], "lvl": "full" if rich else "layout", "via": via}}
+            yield {"op": "frame", "c": {"fmt": fmt, "wn": wn, "rn": rn, "m": desc, "fid": f["id"], "ext": f["ext"], "lvl": "full" if rich else "layout", "via": via, "jopt": jopt}}
             for s in f["signals"]:
                 yield {"op": "sig", "c": {"fmt": fmt, "wn": wn, "rn": rn, "m": desc, "fid": f["id"], "ext": f["ext"], "sname": s["name"],
                                           "sig": [s["name"], s["start"], s["size"], s["little"], s["signed"], s["float"]],
-                                          "x": fmt in ("dbc", "dbf", "sym", "kcd", "json"), "lvl": "full" if rich else "layout", "via": via}}
+                                          "x": fmt in ("dbc", "dbf", "sym", "kcd", "json"), "lvl": "full" if rich else "layout", "via": via, "jopt": jopt}}
 
 
 # Words that are legal names everywhere and contain the text of a keyword, column heading, tag or attribute of one of the file
@@ -174,11 +183,109 @@ def keyword_names(rng, desc, fmt, wn="lsb", rich=False):
             f["name"] = w
     if rng.random() < 0.2:
         f = rng.choice(desc["frames"])
-        s = rng.choice(f["signals"])
+        s = rng.choice(f["signals"])          # (frames lose their signals only afterwards: empty_frames)
         w = rng.choice(NAME_WORDS)
         taken = {t["name"] for g in (desc["frames"] if fmt == "arxml" else [f]) for t in g["signals"]}
         if w not in taken and signal_word_ok(fmt, wn, rich, w):
             s["name"] = w
+
+
+def case_variants(name):
+    """the other spellings of `name` that differ from it in capitalisation only"""
+    out = []
+    for v in (name.upper(), name.lower(), name.swapcase(), name[:1].swapcase() + name[1:], name[:-1] + name[-1:].swapcase()):
+        if v != name and v not in out:
+            out.append(v)
+    return out
+
+
+def case_twins(rng, desc, fmt):
+    """names that differ in capitalisation only (in place): every format of the property takes names as they are written - `Speed` and
+    `speed` are two signals, `Gw` and `GW` two ECUs.  One matrix in six gets such a pair among the signals of one frame (at either
+    position of the signal list), and/or among its frames, and/or among its ECUs."""
+    if rng.random() >= 0.17:
+        return
+    what = rng.choice(["signal", "signal", "signal", "frame", "ecu", "all"])
+    if what in ("signal", "all"):
+        for f in rng.sample(desc["frames"], rng.randint(1, len(desc["frames"]))):
+            if len(f["signals"]) < 2:
+                continue
+            a, b = rng.sample(f["signals"], 2)
+            taken = {t["name"] for g in (desc["frames"] if fmt == "arxml" else [f]) for t in g["signals"]}
+            vs = [v for v in case_variants(a["name"]) if v not in taken]
+            if vs:
+                b["name"] = rng.choice(vs)
+    if what in ("frame", "all") and len(desc["frames"]) >= 2:
+        a, b = rng.sample(desc["frames"], 2)
+        vs = [v for v in case_variants(a["name"]) if not any(g["name"] == v for g in desc["frames"])]
+        if vs:
+            old, b["name"] = b["name"], rng.choice(vs)
+            if fmt == "arxml":
+                # (ARXML: signal names are unique in the matrix - they carry the frame's name in front)
+                for t in b["signals"]:
+                    if t["name"].startswith(old + "_"):
+                        t["name"] = b["name"] + t["name"][len(old):]
+                names = [t["name"] for g in desc["frames"] for t in g["signals"]]
+                if len(set(names)) != len(names):
+                    b["name"] = old + "x"
+                    for t in b["signals"]:
+                        t["name"] = "x" + t["name"]
+    if what in ("ecu", "all"):
+        present = sorted(set(desc["ecus"]))
+        if present:
+            a = rng.choice(present)
+            vs = [v for v in case_variants(a) if v not in present]
+            others = [e for e in present if e != a]
+            if vs:
+                v = rng.choice(vs)
+                if others and rng.random() < 0.6:
+                    # another ECU of the matrix gets the name (with everything it sends and receives) ...
+                    mp = {rng.choice(others): v}
+                    desc["ecus"] = sorted(mp.get(e, e) for e in desc["ecus"])
+                    for f in desc["frames"]:
+                        f["transmitters"] = [mp.get(e, e) for e in f["transmitters"]]
+                        for s in f["signals"]:
+                            s["receivers"] = sorted(mp.get(e, e) for e in s["receivers"])
+                else:
+                    # ... or a further ECU that neither sends nor receives
+                    desc["ecus"] = sorted(set(desc["ecus"]) | {v})
+
+
+def empty_frames_ok(fmt):
+    """Kept out of the generated stream for now: the XLS reader of the unchanged code raises UnboundLocalError (xls.py load: `new_signal`
+    is used before a signal row was seen) for a sheet whose first frame has no signal, and goes on with the signal of the frame before
+    otherwise.  Reported as a finding of the strengthening round; every other format gets frames without signals."""
+    return fmt != "xls"
+
+
+def empty_frames(rng, desc, fmt):
+    """frames without any signal (in place): a trigger, wake-up or not yet described frame is a frame of the matrix like any other - its
+    identifier and format are all it has.  One matrix in six: one of its frames loses its signals, a further frame without signals is
+    added (at any position), or - rarely - no frame has signals."""
+    if rng.random() >= 0.17 or not empty_frames_ok(fmt):
+        return
+    how = rng.choice(["strip", "strip", "add", "add", "add", "all"])
+    if how == "strip":
+        rng.choice(desc["frames"])["signals"] = []
+    elif how == "all":
+        for f in desc["frames"]:
+            f["signals"] = []
+    else:
+        ext = rng.random() < 0.35
+        for _ in range(10):
+            fid = rng.randrange(0, 1 << 29) if ext else rng.randrange(0, 1 << 11)
+            if not any(g["id"] == fid for g in desc["frames"]):
+                break
+        else:
+            return
+        name = rng.choice(["Trigger", "WakeUp", "NM_Alive", "Sync"])
+        if any(g["name"] == name for g in desc["frames"]):
+            return
+        size = rng.choice([1, 2, 8, 8, 8])
+        tx = sorted(rng.sample(sorted(set(desc["ecus"])), min(len(set(desc["ecus"])), rng.choice([0, 1, 1]))))
+        desc["frames"].insert(rng.randint(0, len(desc["frames"])),
+                              {"name": name, "id": fid, "ext": ext, "size": size, "transmitters": tx, "comment": None, "fd": False, "j1939": False,
+                               "signals": [], "cycle": 0})
 
 
 def gen_bus(rng):
@@ -247,12 +354,12 @@ def observe_bus(c):
 _path_cache = {}
 
 
-def run_path(desc, fmt, wn, rn):
+def run_path(desc, fmt, wn, rn, jopt=None):
     """as roundtrip.run, but through the path functions of the public API: dumpp writes <dir>/matrix.<extension>, loadp reads it, both
     take the format from the extension"""
     import canmatrix.formats
     from lib import matrices as M
-    key = json.dumps([desc, fmt, wn, rn], sort_keys=True)
+    key = json.dumps([desc, fmt, wn, rn, jopt], sort_keys=True)
     if key in _path_cache:
         return _path_cache[key]
     import contextlib
@@ -260,6 +367,7 @@ def run_path(desc, fmt, wn, rn):
     wopts, ropts = {}, {}
     if fmt == "json":
         wopts = {"jsonExportAll": True, "jsonMotorolaBitFormat": wn}
+        wopts.update(jopt or {})
     if fmt == "xls":
         wopts = {"xlsMotorolaBitFormat": wn}
         ropts = {"xlsMotorolaBitFormat": rn}
@@ -304,7 +412,12 @@ def observe(case):
     c = case["c"]
     if case["op"] == "bus":
         return observe_bus(c)
-    r = run_path(c["m"], c["fmt"], c["wn"], c["rn"]) if c.get("via") == "path" else R.run(c["m"], c["fmt"], c["wn"], c["rn"])
+    if c.get("via") == "path":
+        r = run_path(c["m"], c["fmt"], c["wn"], c["rn"], c.get("jopt"))
+    elif c.get("jopt"):
+        r = R.run(c["m"], c["fmt"], c["wn"], c["rn"], wextra=c["jopt"])
+    else:
+        r = R.run(c["m"], c["fmt"], c["wn"], c["rn"])
     if r["exc"]:
         if case["op"] == "frame":
             return {"exc": r["exc"], "got": None, "orig": None}
@@ -373,6 +486,16 @@ def features(case, impl):
         yield "matrix:long-signal-names-equal-in-32-characters/" + c["fmt"]
     if any(f["size"] > 8 for f in fr):
         yield "matrix:fd-length"
+    if c.get("jopt"):
+        yield "json:compact-export%s" % ("/native-types" if c["jopt"].get("jsonNativeTypes") else "")
+    if any(not f["signals"] for f in fr):
+        yield "matrix:frame-without-signals/%s%s" % (c["fmt"], "/all" if not any(f["signals"] for f in fr) else "")
+    if any(s["name"] != t["name"] and s["name"].lower() == t["name"].lower() for f in fr for s in f["signals"] for t in f["signals"]):
+        yield "matrix:signal-names-differ-in-case-only/" + c["fmt"]
+    if any(f["name"] != g["name"] and f["name"].lower() == g["name"].lower() for f in fr for g in fr):
+        yield "matrix:frame-names-differ-in-case-only/" + c["fmt"]
+    if len({e.lower() for e in c["m"]["ecus"]}) < len(set(c["m"]["ecus"])):
+        yield "matrix:ecu-names-differ-in-case-only/" + c["fmt"]
     if case["op"] == "sig":
         d = c["sig"]
         yield "%s:%s%s" % (c["fmt"], "intel" if d[3] else "motorola", "/float" if d[5] else "")
